@@ -165,6 +165,24 @@ pub mod c07 {
         }
     }
 
+    /// the same laws for one concrete language (cheap: the binary search over the 7143-row table runs
+    /// on a constant key), script and region fully symbolic
+    fn laws_for(lang: &'static [u8]) {
+        let l = Language::from_bytes(lang).unwrap();
+        let (s, _) = sym::opt_script();
+        let (r, _) = sym::opt_region();
+        let got = maximize(l, s, r);
+        cover!(got.is_some() || lang.len() == 3);
+        cover!(got.is_none());
+        if let Some((l2, s2, r2)) = got {
+            assert!(l2 == l, "a language that was present is unchanged");
+            assert!(s.is_none() || s2 == s, "a script that was present is unchanged");
+            assert!(r.is_none() || r2 == r, "a region that was present is unchanged");
+            assert!(!l2.is_empty() && s2.is_some() && r2.is_some(), "all three present afterwards");
+            assert!(maximize(l2, s2, r2).is_none(), "maximizing the result again changes nothing");
+        }
+    }
+
     /// a language known to CBMC to be non-empty (concrete `Some` discriminant): rebuilt from its own
     /// integer form, which C17 decides is the identity
     pub fn nonempty_language() -> Language {
@@ -182,6 +200,8 @@ pub mod c07 {
     proofs! {
     [] fn c07_laws_und() { laws(true) }
     [] fn c07_laws_lang() { laws(false) }
+    [] fn c07_laws_zh() { laws_for(b"zh") }
+    [] fn c07_laws_unknown_qaa() { laws_for(b"qaa") }
 
     // every triple with language, script and region present is a fixed point (reported unchanged)
     [] fn c07_full_is_fixpoint() {
